@@ -41,6 +41,10 @@ class Workspace:
         self.nshards = 0
         self.lockf = None
 
+    def kwargs(self):
+        return dict(features=tuple(self.features), default_features=self.default_features, profile=self.profile,
+                    dep_name=self.dep_name, extra_deps=self.extra_deps, target_key=os.path.basename(self.target)[len('target-'):])
+
     def lock(self):
         os.makedirs(os.path.join(SCRATCH, 'ws'), exist_ok=True)
         self.lockf = open(os.path.join(SCRATCH, 'ws', self.key + '.lock'), 'w')
